@@ -49,7 +49,7 @@ function plan (seed, run, tier) {
     for (let vi = 0; vi < nVer; vi++) {
       const kind = ['mod', 'mod', 'mod', 'mod', 'plain', 'plain', 'syntaxerr'][rng.below(7)]
       const omap = anyChain && rng.chance(2, 3) ? rng.pick(['inline', 'external']) : null
-      versions.push(genVersion(rng, fi, vi, kind, { file, omap, allowMsgAt, lookalikeLine: rng.chance(1, 5), bulk: run % 16 === 9 && fi === 0 && vi === 0 }))
+      versions.push(genVersion(rng, fi, vi, kind, { file, omap, allowMsgAt, lookalikeLine: rng.chance(1, 5), bulk: run % 16 === 9 && fi === 0 && vi === 0, firstLine: rng.chance(1, 4), staleInline: rng.chance(1, 4) }))
     }
     files.push({ path: file, versions })
   }
